@@ -130,4 +130,115 @@ theorem map_keyBytes_ascii (l : List PyStr) (h : l.all isAscii = true) : l.map k
     simp only [List.all_cons, Bool.and_eq_true] at h
     simp [keyBytes, h.1, ih h.2]
 
+/-! ### `sorted(…, key=…)` -/
+
+theorem map_insertBy (key : PyStr → List Nat) (x : PyStr) (l : List PyStr) :
+    (insertBy key x l).map key = insertName (key x) (l.map key) := by
+  induction l with
+  | nil => rfl
+  | cons y ys ih =>
+    simp only [insertBy, List.map_cons, insertName]
+    split
+    · rfl
+    · simp [ih]
+
+/-- Sorting by a key and then taking the keys is sorting the keys. -/
+theorem map_pySortedBy (key : PyStr → List Nat) (l : List PyStr) :
+    (pySortedBy key l).map key = pySorted (l.map key) := by
+  induction l with
+  | nil => rfl
+  | cons x xs ih => simp only [pySortedBy, pySorted, List.map_cons, map_insertBy, ih]
+
+theorem insertBy_perm (key : PyStr → List Nat) (x : PyStr) (l : List PyStr) : (insertBy key x l).Perm (x :: l) := by
+  induction l with
+  | nil => simp [insertBy]
+  | cons y ys ih =>
+    simp only [insertBy]
+    split
+    · exact List.Perm.refl _
+    · exact (List.Perm.cons y ih).trans (List.Perm.swap x y ys)
+
+theorem pySortedBy_perm (key : PyStr → List Nat) (l : List PyStr) : (pySortedBy key l).Perm l := by
+  induction l with
+  | nil => exact List.Perm.refl _
+  | cons x xs ih => exact (insertBy_perm key x _).trans (List.Perm.cons x ih)
+
+/-- For names that are all ASCII the key is the name: the repaired order is the old `sorted(pdf_names)` order. -/
+theorem insertBy_ascii (x : PyStr) (l : List PyStr) (hx : isAscii x = true) (hl : l.all isAscii = true) :
+    insertBy keyBytes x l = insertName x l := by
+  induction l with
+  | nil => rfl
+  | cons y ys ih =>
+    simp only [List.all_cons, Bool.and_eq_true] at hl
+    simp only [insertBy, insertName, keyBytes, hx, hl.1, if_true, ih hl.2]
+
+theorem pySortedBy_ascii (l : List PyStr) (h : l.all isAscii = true) : pySortedBy keyBytes l = pySorted l := by
+  induction l with
+  | nil => rfl
+  | cons x xs ih =>
+    simp only [List.all_cons, Bool.and_eq_true] at h
+    simp only [pySortedBy, pySorted, ih h.2]
+    exact insertBy_ascii x _ h.1 (pySorted_all isAscii xs h.2)
+
+/-! ### `/EmbeddedFiles`: where sorting the serialised strings sorts the keys -/
+
+/-- No byte that pydyf escapes and none at or below `)`: the closing parenthesis sorts before every byte of the name. -/
+def plainName (s : List Nat) : Bool := s.all (fun b => 41 < b && b != 92)
+
+theorem escape_plain (s : List Nat) (h : plainName s = true) :
+    s.flatMap (fun b => if b = 92 ∨ b = 40 ∨ b = 41 then [92, b] else [b]) = s := by
+  induction s with
+  | nil => rfl
+  | cons b bs ih =>
+    simp only [plainName, List.all_cons, Bool.and_eq_true, decide_eq_true_eq, bne_iff_ne] at h
+    have hb : ¬ (b = 92 ∨ b = 40 ∨ b = 41) := by omega
+    have hbs : plainName bs = true := by simpa [plainName] using h.2
+    simp only [List.flatMap_cons, hb, if_false, ih hbs]
+    rfl
+
+theorem litData_plain (s : List Nat) (h : plainName s = true) : litData s = 40 :: (s ++ [41]) := by
+  unfold litData
+  rw [escape_plain s h]
+  rfl
+
+theorem lexLt_terminated (s t : List Nat) (hs : plainName s = true) (ht : plainName t = true) :
+    lexLt (s ++ [41]) (t ++ [41]) = lexLt s t := by
+  induction s generalizing t with
+  | nil =>
+    cases t with
+    | nil => simp [lexLt]
+    | cons b bs =>
+      simp only [plainName, List.all_cons, Bool.and_eq_true, decide_eq_true_eq] at ht
+      simp [lexLt, ht.1.1]
+  | cons a as ih =>
+    simp only [plainName, List.all_cons, Bool.and_eq_true, decide_eq_true_eq] at hs
+    cases t with
+    | nil =>
+      have h1 : ¬ a < 41 := by omega
+      have h2 : ¬ a = 41 := by omega
+      simp [lexLt, h1, h2]
+    | cons b bs =>
+      simp only [plainName, List.all_cons, Bool.and_eq_true, decide_eq_true_eq] at ht
+      simp only [List.cons_append, lexLt]
+      rw [ih bs (by simpa [plainName] using hs.2) (by simpa [plainName] using ht.2)]
+
+theorem lexLe_litData (s t : List Nat) (hs : plainName s = true) (ht : plainName t = true) :
+    lexLe (litData s) (litData t) = lexLe s t := by
+  rw [litData_plain s hs, litData_plain t ht]
+  simp only [lexLe, lexLt, Nat.lt_irrefl, decide_false, beq_self_eq_true, Bool.true_and, Bool.false_or]
+  rw [lexLt_terminated t s ht hs]
+
+theorem sortedBy_of_map_litData (l : List (List Nat)) (hp : ∀ x ∈ l, plainName x = true)
+    (h : sortedBy lexLe (l.map litData) = true) : sortedBy lexLe l = true := by
+  induction l with
+  | nil => rfl
+  | cons a rest ih =>
+    cases rest with
+    | nil => rfl
+    | cons b more =>
+      simp only [List.map_cons, sortedBy, Bool.and_eq_true] at h ⊢
+      refine ⟨?_, ih (fun x hx => hp x (List.mem_cons_of_mem _ hx)) (by simpa [sortedBy] using h.2)⟩
+      rw [← lexLe_litData a b (hp a (by simp)) (hp b (by simp))]
+      exact h.1
+
 end Wp.PdfNames
